@@ -1,23 +1,31 @@
 import AasVerif.Model.Expr.Conforms
 import AasVerif.Lemmas.EvalAgree
+import AasVerif.Lemmas.EvalTyped
 /-!
-Basic facts for the none-safety proof of the inferrer: the invariant that is carried through
+Basic facts for the soundness proof of the inferrer: the invariant that is carried through
 the traversal, inversion lemmas for `HasTy`, and how the fact-flow helpers keep the invariant.
 -/
 namespace AasVerif.Expr
 
 variable {κ : Type} [DecidableEq κ]
 
-/-- types about whose values the inferrer's result says nothing reliable (primitives: the
-operand checks are missing; functions: not values) -/
-def Ty.isLoose : Ty → Bool
-  | .prim _ | .verif .. | .builtin .. | .method .. => true
-  | _ => false
+/-- the outcome of a well-typed expression: a value of the inferred type, or `IndexError` -/
+abbrev Good (D : Decls) (o : Out) (τ : Ty) : Prop := OutOK D o τ
 
-/-- what is known about the value of a well-typed expression *without* the missing checks -/
-def Agrees (D : Decls) (v : Val) (τ : Ty) : Prop := τ.isLoose = true ∨ HasTy D v τ
+theorem Good.index {D : Decls} {τ : Ty} : Good D .indexError τ := Or.inl rfl
 
-def Good (D : Decls) (o : Out) (τ : Ty) : Prop := o ≠ .noneDeref ∧ ∀ v, o = .val v → Agrees D v τ
+theorem Good.val {D : Decls} {v : Val} {τ : Ty} (h : HasTy D v τ) : Good D (.val v) τ := Or.inr ⟨v, rfl, h⟩
+
+/-- a `bool` outcome -/
+theorem Good.ofBool {D : Decls} (b : Bool) : Good D (.val (.bool b)) .bool := Good.val (HasTy.bool b)
+
+theorem Good.of_boolOrIndex {D : Decls} {o : Out} (h : BoolOrIndex o) : Good D o .bool := by
+  rcases h with rfl | ⟨b, rfl⟩
+  · exact Good.index
+  · exact Good.ofBool b
+
+/-- case analysis of a good outcome -/
+theorem Good.cases {D : Decls} {o : Out} {τ : Ty} (h : Good D o τ) : o = .indexError ∨ ∃ v, o = .val v ∧ HasTy D v τ := h
 
 /-- What the proof needs of the keys: two expressions with the same key have the same value in
 every environment.  (Injective keys trivially; the real canonical strings identify `f"x"` with
@@ -40,8 +48,8 @@ def FactOK (Γ : TEnv) (ρ : Env) (e : Expr) : Prop :=
 structure Inv (key : Expr → κ) (Γ : TEnv) (F : Facts κ) (ρ : Env) : Prop where
   conf : Conforms ρ Γ
   wf : Γ.decls.WF
-  safe : EnvSafe ρ
-  calls : CallsConform ρ Γ
+  ok : EnvOK ρ
+  calls : CallsOK ρ Γ
   /-- every assumed fact is true: the expression with that key evaluates to a non-`None` value -/
   facts : ∀ e, key e ∈ F → FactOK Γ ρ e
 
@@ -60,24 +68,15 @@ theorem HasTy.of_opt {D : Decls} {v : Val} {τ : Ty} (h : HasTy D v (.opt τ)) (
   | optNone _ => exact absurd rfl hv
   | optSome h => exact h
 
-theorem strip_agrees {D : Decls} {v : Val} {τ : Ty} {F : Facts κ} {k : κ}
-    (h : Agrees D v τ) (hn : k ∈ F → v ≠ .none) : Agrees D v (strip F k τ) := by
+theorem strip_hasTy {D : Decls} {v : Val} {τ : Ty} {F : Facts κ} {k : κ}
+    (h : HasTy D v τ) (hn : k ∈ F → v ≠ .none) : HasTy D v (strip F k τ) := by
   cases τ <;> try exact h
   rename_i τ'
   simp only [strip]
   split
   · rename_i hc
-    have hv : v ≠ .none := hn (by simpa using hc)
-    rcases h with h | h
-    · simp [Ty.isLoose] at h
-    · exact Or.inr (h.of_opt hv)
+    exact h.of_opt (hn (by simpa using hc))
   · exact h
-
-theorem Good.of_eq {D : Decls} {o : Out} {τ : Ty} (h1 : o ≠ .noneDeref) (h2 : ∀ v, o = .val v → Agrees D v τ) :
-    Good D o τ := ⟨h1, h2⟩
-
-theorem good_loose {D : Decls} {o : Out} {τ : Ty} (h1 : o ≠ .noneDeref) (hl : τ.isLoose = true) : Good D o τ :=
-  ⟨h1, fun _ _ => Or.inl hl⟩
 
 /-- truthiness of `x is not None` -/
 theorem isNotNone_truthy {ρ : Env} {x : Expr} {v : Val} (h : eval ρ (.isNotNone x) = .val v)
@@ -221,21 +220,22 @@ theorem Inv.implFacts {Γ : TEnv} {F : Facts κ} {ρ : Env} (hk : KeySound key) 
     | crash s => simp [ha] at hinf
     | ok u => exact Inv.andFacts hk vs inv (evalAnd_truthy_all vs h ht) (inferAnd_ok_each vs ha)
 
+theorem HasTy.not_fn {D : Decls} {v : Val} {τ : Ty} (h : HasTy D v τ) : τ.isFn = false := by
+  cases h <;> rfl
+
 /-- entering a generator: the loop variable is new and its value has the item type -/
 theorem Inv.bind {Γ : TEnv} {F : Facts κ} {ρ : Env} (inv : Inv key Γ F ρ) {x : Text} {τx : Ty} {item : Val}
     (hx : Γ.find x = none) (hty : HasTy Γ.decls item τx) : Inv key (Γ.bind x τx) F (ρ.bind x item) := by
-  have hnf : τx.isFn = false := by cases hty <;> rfl
-  have hfind : ∀ n σ, (Γ.bind x τx).find n = some σ → σ.isFn = true → Γ.find n = some σ := by
+  have hnf : τx.isFn = false := hty.not_fn
+  have hfind : ∀ n σ, (Γ.bind x τx).find n = some σ → σ.isFn = true → Γ.find n = some σ ∧ x ≠ n := by
     intro n σ h hfn
     rw [find_bind] at h
     by_cases hxn : x = n
     · simp only [hxn, if_true, Option.some.injEq] at h
       subst h
       rw [hnf] at hfn; cases hfn
-    · simpa [hxn] using h
-  refine
-    { conf := ?_, wf := inv.wf, safe := ⟨inv.safe.funs, inv.safe.meths, inv.safe.cmp, inv.safe.arith, inv.safe.fmt⟩,
-      calls := ?_, facts := ?_ }
+    · exact ⟨by simpa [hxn] using h, hxn⟩
+  refine { conf := ?_, wf := inv.wf, ok := ⟨inv.ok.cmp, inv.ok.arith, inv.ok.fmt⟩, calls := ?_, facts := ?_ }
   · intro y σ h
     rw [find_bind] at h
     rw [lookup_bind]
@@ -246,10 +246,13 @@ theorem Inv.bind {Γ : TEnv} {F : Facts κ} {ρ : Env} (inv : Inv key Γ F ρ) {
     · simp only [hxy, if_false] at h ⊢
       exact inv.conf y σ h
   · exact
-      { impl := fun n m ret h => inv.calls.impl n m ret (hfind n _ h rfl)
-        builtin := fun n m ret h => inv.calls.builtin n m ret (hfind n _ h rfl)
-        funs := fun n m ret f vs v h hf hv =>
-          inv.calls.funs n m ret f vs v (h.imp (fun h => hfind n _ h rfl) (fun h => hfind n _ h rfl)) hf hv
+      { notVar := fun n σ h hfn => by
+          obtain ⟨h', hxn⟩ := hfind n σ h hfn
+          rw [lookup_bind]
+          simp only [hxn, if_false]
+          exact inv.calls.notVar n σ h' hfn
+        builtin := fun n m ret h => inv.calls.builtin n m ret (hfind n _ h rfl).1
+        funs := fun n m ret f h hf => inv.calls.funs n m ret f (hfind n _ h rfl).1 hf
         meths := inv.calls.meths }
   · intro e he
     obtain ⟨Γ0, ρ0, hag, hsub, hv⟩ := inv.facts e he
